@@ -179,6 +179,97 @@ SUBS = ["secret", "PASSWORD", "Drop Table", "rm -rf", "a", "", " ", "\u20ac", "x
         "\u4e2d", "0", "__"]
 
 
+class MemBook:
+    """The monitor's own view of ONE membrane: (id, pattern, is_regex, level) VALUES, updated only by
+    operations addressed to that membrane.  Judges every filter result against the property."""
+
+    def __init__(self, shipped, builtin, custom, threshold, adaptive, rate, tag=""):
+        self.sigs = [(i, shipped[i]["pattern"], shipped[i]["is_regex"], shipped[i]["level"]) for i in builtin]
+        self.sigs += [(d["id"], d["pattern"], d["regex"], d["level"]) for d in custom]
+        self.learned = {}                 # pattern text -> value tuple
+        self.thr = threshold
+        self.adaptive = adaptive
+        self.rate = rate
+        self.epoch = 0                    # bumps whenever the rule set or the threshold changes
+        self.blocked_by_scan = []         # (content, epoch)
+        self.admitted = []                # times (s) of requests that passed the rate check
+        self.tag = tag
+
+    def exported(self):
+        return list(self.learned.values())
+
+    def import_values(self, values):
+        for v in values:
+            self.learned[v[1]] = v
+        self.epoch += 1
+
+    def apply(self, op):
+        o = op[0]
+        if o == "learn":
+            if self.adaptive:
+                d = op[1]
+                self.learned[d["pattern"]] = (d["id"], d["pattern"], d["regex"], d["level"])
+                self.epoch += 1
+        elif o == "forget":
+            if self.learned.pop(op[1], None) is not None:
+                self.epoch += 1
+        elif o == "import":
+            self.import_values([(d["id"], d["pattern"], d["regex"], d["level"]) for d in op[1]])
+        elif o == "addsig":
+            d = op[1]
+            self.sigs.append((d["id"], d["pattern"], d["regex"], d["level"]))
+            self.epoch += 1
+        elif o == "thr":
+            if op[1] != self.thr:
+                self.thr = op[1]
+                self.epoch += 1
+
+    def judge(self, st):
+        """st: the recorded filter step of this membrane -> None | Violation"""
+        x = st["content"]
+        t = self.tag
+        active = self.sigs + list(self.learned.values())
+        hits = [(i, lvl) for (i, p, rx, lvl) in active if spec_matches(p, rx, x)]
+        replay = any(b == x for b, _ in self.blocked_by_scan)
+        if st["allowed"]:
+            bad = [i for (i, lvl) in hits if lvl >= self.thr]
+            if bad:
+                return Violation("C10/allowed-despite-signature",
+                                 f"{t}filter allowed {x!r} although active signature(s) {bad} at/above threshold {self.thr} match")
+            if replay:
+                return Violation("C10/replay-forgotten", f"{t}{x!r} was blocked by a scan earlier and is allowed now")
+            for b, e in self.blocked_by_scan:
+                if e == self.epoch and b.lower() == x.lower():
+                    return Violation("C10/case-change-unblocks", f"{t}{b!r} was blocked but its case variant {x!r} is allowed")
+                if e == self.epoch and embeds(b, x):
+                    return Violation("C10/embedding-unblocks", f"{t}{b!r} was blocked but {x!r}, which embeds it in text that "
+                                                               f"glues no word character to it, is allowed")
+        scanned = (st["limited"] is not True) and not replay
+        if scanned:
+            if st["ids"] != sorted(i for i, _ in hits):
+                return Violation("C10/matched-set", f"{t}matched signatures {st['ids']} != matching active signatures "
+                                                    f"{sorted(i for i, _ in hits)} for {x!r}")
+            if st["level"] != max([0] + [l for _, l in hits]):
+                return Violation("C10/level-not-max", f"{t}threat level {st['level']} is not the maximum over matched "
+                                                      f"signatures {hits} for {x!r}")
+            if not st["allowed"]:
+                self.blocked_by_scan.append((x, self.epoch))
+        if st["limited"] is not True:
+            self.admitted.append(st["t"] / TPS)
+        return None
+
+    def rate_verdict(self):
+        if self.rate is None:
+            return None
+        lim = max(0, self.rate)
+        for a in self.admitted:
+            n = sum(1 for u in self.admitted if a <= u < a + WINDOW_S)
+            if n > lim:
+                return Violation("C10/rate-bound", f"{self.tag}{n} requests admitted within [{a}, {a + WINDOW_S}) s with "
+                                                   f"rate_limit={self.rate}")
+        return None
+
+
 class VClock:
     """stands in for the `time` module inside membrane.py"""
 
@@ -219,7 +310,11 @@ class C10(Check):
     RULE = ("membrane histories (45%): a subset of the 19 built-in signatures + 0..3 custom substring/regex signatures, threshold in all 4 "
             "levels, rate_limit in {None,0..4}, enable_adaptive both ways, 3..12 operations from {filter, learn_threat, forget_threat, "
             "import_antibodies (exported by a second real Membrane), add_signature, set_threshold, clock tick, clear_audit_log} under a "
-            "virtual clock (ticks of 0, 0.5 s, 59.5/60/60.5 s gaps, bursts at the limit, occasionally a backwards tick); scripted "
+            "virtual clock (ticks of 0, 0.5 s, 59.5/60/60.5 s gaps, bursts at the limit, occasionally a backwards tick); colonies of 2-3 real "
+            "Membranes sharing the clock (12%): operations addressed to one membrane, transfer = dst.import_antibodies("
+            "src.export_antibodies()) with the very objects, then re-learn (lower/higher level, other kind) / forget / threshold "
+            "change / filters on the DONOR (and on the recipient, judging the donor), chains 0->1->2, judged by per-membrane books of "
+            "(pattern, is_regex, level) values - a systematic alias family on every run plus random colonies; scripted "
             "scenarios: admit-then-TIGHTEN-then-replay of the byte-identical input (the matching signature becomes blocking through "
             "each of import_antibodies / learn_threat / add_signature / a lowered threshold, substring and regex, with unrelated "
             "operations in between; innate: add_pattern / add_validator) - a systematic family run on every run (exhaustive_cases) "
@@ -389,6 +484,108 @@ class C10(Check):
             core = flip_case(core, rng)
         return g, embed(core, rng)[:MAX_COQ_LEN]
 
+    # -- colonies: several membranes, export/import of the very objects ------------------
+    ALIAS_VARIANTS = ["relearn-lower", "relearn-higher", "forget", "thr", "relearn-kind", "donor-filter", "chain",
+                      "recipient-relearn"]
+
+    def _member(self, rng, thr=None, plain=True):
+        nb = len(self._shipped()[0])
+        if plain:
+            return {"builtin": list(range(nb)), "custom": [], "threshold": thr if thr is not None else 2,
+                    "rate": None, "adaptive": True}
+        return {"builtin": list(range(nb)) if rng.random() < 0.6 else sorted(rng.sample(range(nb), rng.randint(0, nb))),
+                "custom": [self._sigdesc(rng, 100 + rng.randint(1, 40)) for _ in range(rng.choice([0, 0, 1]))],
+                "threshold": rng.choice([0, 1, 2, 2, 3]) if thr is None else thr,
+                "rate": rng.choice([None, None, None, 2, 4]), "adaptive": rng.random() < 0.85}
+
+    def _alias_sys(self, rng, variant, pat, rx):
+        """donor learns, recipient imports the exported objects, then the DONOR changes; the recipient is judged
+        on an input it has not seen (and vice versa for recipient-relearn)"""
+        thr = rng.choice([1, 2, 2, 3])
+        hi = rng.randint(thr, 3)
+        lo = rng.randint(0, thr - 1)
+        first = lo if variant == "relearn-higher" else hi
+        g = {"id": 160, "pattern": pat, "regex": rx, "level": first}
+        n = 3 if variant == "chain" else 2
+        case = {"kind": "sys", "scenario": "alias:" + variant, "members": [self._member(rng, thr) for _ in range(n)],
+                "t0": T0_TICKS, "ops": []}
+        ops = case["ops"]
+        victim = n - 1
+
+        def fresh():
+            core = self._instance(g, rng)
+            return embed(flip_case(core, rng) if rng.random() < 0.5 else core, rng)[:MAX_COQ_LEN]
+        ops.append(["m", 0, ["learn", g]])
+        if rng.random() < 0.3:
+            ops.append(["m", victim, ["filter", benign(rng, 2)]])
+        ops.append(["transfer", 0, 1])
+        if variant == "chain":
+            ops.append(["transfer", 1, 2])
+        if rng.random() < 0.3:
+            ops.append(["tick", rng.choice([0, 1, 121])])
+        if variant in ("relearn-lower", "chain"):
+            ops.append(["m", 0, ["learn", {**g, "id": 161, "level": lo}]])
+        elif variant == "relearn-higher":
+            ops.append(["m", 0, ["learn", {**g, "id": 161, "level": hi}]])
+        elif variant == "forget":
+            ops.append(["m", 0, ["forget", pat]])
+        elif variant == "thr":
+            ops.append(["m", 0, ["thr", rng.choice([0, 3])]])
+        elif variant == "relearn-kind":
+            if rx or not pat.strip():
+                ops.append(["m", 0, ["learn", {**g, "id": 161, "level": lo}]])
+            else:
+                ops.append(["m", 0, ["learn", {"id": 161, "pattern": pat, "regex": True, "level": lo}]])
+        elif variant == "donor-filter":
+            ops.append(["m", 0, ["filter", fresh()]])
+        elif variant == "recipient-relearn":
+            ops.append(["m", 1, ["learn", {**g, "id": 161, "level": lo}]])
+            victim = 0
+        if rng.random() < 0.3:
+            ops.append(["m", 1 - victim if n == 2 else 0, ["clear"]])
+        x = fresh()
+        ops.append(["m", victim, ["filter", x]])
+        ops.append(["m", victim, ["filter", fresh()]])
+        ops.append(["m", (victim + 1) % n, ["filter", x]])
+        return case
+
+    def _gen_sys(self, rng):
+        n = rng.choice([2, 2, 2, 3])
+        case = {"kind": "sys", "members": [self._member(rng, plain=rng.random() < 0.5, thr=None) for _ in range(n)],
+                "t0": T0_TICKS + rng.choice([0, 1]), "ops": []}
+        shipped = self._shipped()[0]
+        pats = rng.sample(RX_ATOMS, 3) + rng.sample([p for p in SUBS if p.strip()], 3)
+        pool = [{"id": 0, "pattern": p, "regex": p in RX_ATOMS, "level": 3} for p in pats]
+        pool += [shipped[i] for i in rng.sample(range(len(shipped)), 4) if "pattern" in shipped[i]]
+        nid = [200]
+        ops = case["ops"]
+        for _ in range(rng.randint(5, 14)):
+            r = rng.random()
+            k = rng.randrange(n)
+            if r < 0.40:
+                ops.append(["m", k, ["filter", self._content(rng, pool)]])
+            elif r < 0.60:
+                nid[0] += 1
+                p = rng.choice(pats)
+                ops.append(["m", k, ["learn", {"id": nid[0], "pattern": p, "regex": p in RX_ATOMS,
+                                               "level": rng.choice([0, 1, 2, 3, 3])}]])
+            elif r < 0.75:
+                a = rng.randrange(n)
+                ops.append(["transfer", a, rng.randrange(n) if rng.random() < 0.1 else (a + 1 + rng.randrange(n - 1)) % n])
+            elif r < 0.82:
+                ops.append(["m", k, ["forget", rng.choice(pats)]])
+            elif r < 0.88:
+                ops.append(["m", k, ["thr", rng.choice([0, 1, 2, 3])]])
+            elif r < 0.92:
+                nid[0] += 1
+                p = rng.choice(pats)
+                ops.append(["m", k, ["addsig", {"id": nid[0], "pattern": p, "regex": p in RX_ATOMS, "level": rng.choice([1, 2, 3])}]])
+            elif r < 0.95:
+                ops.append(["m", k, ["clear"]])
+            else:
+                ops.append(["tick", rng.choice([0, 1, 60, 120, 121])])
+        return case
+
     def exhaustive_cases(self):
         """the systematic admit/tighten/replay family: every rule-changing operation x substring/regex signatures"""
         import random as _random
@@ -405,6 +602,9 @@ class C10(Check):
                 for method in self.INN_TIGHTEN:
                     g, x = self._tighten_pair(rng, pat, rx, innate=True)
                     out.append(self._tighten_inn(rng, method, g, x))
+            for pat, rx in pats[:4] if self.tier == "quick" else pats:
+                for variant in self.ALIAS_VARIANTS:
+                    out.append(self._alias_sys(rng, variant, pat, rx))
         return out
 
     def _gen_mem(self, rng):
@@ -535,12 +735,17 @@ class C10(Check):
                     ops.append(["check", rng.choice([flip_case(x, rng), embed(x, rng)[:MAX_COQ_LEN], x])])
             elif r < 0.72:
                 g = new_sig()
+                if rng.random() < 0.35:      # on the sibling instance only: must not become active here
+                    ops.append(["sib", ["addpat", g]])
+                    ops.append(["check", embed(self._instance(g, rng), rng)[:MAX_COQ_LEN]])
+                    continue
                 ops.append(["addpat", g])
                 pool = pool + [g]
             elif r < 0.80:
                 ops.append(["addval", new_val()])
             elif r < 0.86:
-                ops.append(["reset"])
+                ops.append(rng.choice([["reset"], ["sib", ["reset"]], ["sib", ["check", self._content(rng, pool)]],
+                                       ["sib", ["addval", ["len", 0, 0]]]]))
             else:
                 ops.append(["tick", rng.choice([0, 1, 59, 60, 61, 899, 900, 901, 3600])])
         return case
@@ -582,6 +787,13 @@ class C10(Check):
                     out.append(self._tighten_mem(rng, self.MEM_TIGHTEN[k % 4], g, x, allow_rule_ops=rng.random() < 0.3))
                 else:
                     out.append(self._tighten_inn(rng, self.INN_TIGHTEN[k % 2], g, x))
+            elif r < 0.20:
+                if rng.random() < 0.35:
+                    rx = rng.random() < 0.5
+                    pat = rng.choice(RX_ATOMS) if rx else rng.choice([p for p in SUBS if p.strip()])
+                    out.append(self._alias_sys(rng, self.ALIAS_VARIANTS[k % len(self.ALIAS_VARIANTS)], pat, rx))
+                else:
+                    out.append(self._gen_sys(rng))
             elif r < 0.5:
                 out.append(self._gen_mem(rng))
             elif r < 0.83:
@@ -638,6 +850,8 @@ class C10(Check):
             return self._run_inn(case)
         if k == "hostile":
             return self._run_hostile(case)
+        if k == "sys":
+            return self._run_sys(case)
         return self._run_sig(case)
 
     def _run_sig(self, case):
@@ -740,6 +954,111 @@ class C10(Check):
             M.time = saved
         return obs, {"steps": steps}
 
+    def _run_sys(self, case):
+        """a colony of real Membrane objects sharing one virtual clock; transfer passes the very objects
+        export_antibodies() returns"""
+        from operon_ai.organelles import membrane as M
+        from operon_ai.core.types import Signal
+        B = M.Membrane.INNATE_SIGNATURES
+        clock = VClock(case["t0"])
+        saved = M.time
+        M.time = clock
+        steps, obs = [], []
+        try:
+            ms, logs = [], []
+            for spec in case["members"]:
+                customs = [self._mk_tsig(M, d) for d in spec["custom"]]
+                m = M.Membrane(signatures=customs, threshold=M.ThreatLevel(spec["threshold"]),
+                               enable_adaptive=spec["adaptive"], rate_limit=spec["rate"], silent=True)
+                if spec["builtin"] != list(range(len(B))):
+                    m.signatures = [B[i] for i in spec["builtin"]] + customs
+                log = []
+
+                def spy(orig=m._check_rate_limit, log=log):
+                    r = orig()
+                    log.append(bool(r))
+                    return r
+                m._check_rate_limit = spy
+                ms.append(m)
+                logs.append(log)
+
+            def snapshot(skip):
+                return [(j, list(mm._audit_log), mm._total_filtered, mm._total_blocked, len(mm._blocked_hashes))
+                        for j, mm in enumerate(ms) if j != skip]
+
+            def same(snap):
+                return all(len(a) == len(ms[j]._audit_log) and all(p is q for p, q in zip(a, ms[j]._audit_log))
+                           and f == ms[j]._total_filtered and b == ms[j]._total_blocked and h == len(ms[j]._blocked_hashes)
+                           for (j, a, f, b, h) in snap)
+            for op in case["ops"]:
+                o = op[0]
+                if o == "tick":
+                    clock.ticks += op[1]
+                    steps.append({"op": "tick"})
+                    obs.append([-6])
+                    continue
+                if o == "transfer":
+                    src, dst = ms[op[1]], ms[op[2]]
+                    snap = snapshot(op[2])
+                    before = dst.get_audit_log()
+                    dst.import_antibodies(src.export_antibodies())
+                    after = dst.get_audit_log()
+                    steps.append({"op": "transfer", "k": op[2], "others_audit_ok": same(snap),
+                                  "audit_ok": len(after) == len(before) and all(a is b for a, b in zip(before, after))})
+                    obs.append([-5, op[2], len(dst._learned_patterns)])
+                    continue
+                k, mop = op[1], op[2]
+                m = ms[k]
+                kind = mop[0]
+                snap = snapshot(k)
+                before = m.get_audit_log()
+                st = {"op": kind, "k": k, "t": clock.ticks}
+                if kind == "filter":
+                    n0 = len(logs[k])
+                    try:
+                        r = common.call_with_watchdog(lambda: m.filter(Signal(content=mop[1])), 10.0)
+                    except common.Hang:
+                        raise
+                    except Exception as e:      # noqa
+                        st["raised"] = f"{type(e).__name__}: {e}"
+                        steps.append(st)
+                        obs.append([-3])
+                        break
+                    ids = self._ids(r.matched_signatures, B)
+                    stats = m.get_statistics()
+                    after = m.get_audit_log()
+                    st.update(content=mop[1], allowed=bool(r.allowed), level=r.threat_level.value, ids=ids,
+                              limited=(logs[k][n0] if len(logs[k]) > n0 else None),
+                              audit_ok=(len(after) == len(before) + 1 and all(a is b for a, b in zip(before, after))
+                                        and after[-1] is r),
+                              audit_hash_ok=(r.audit_hash == sha16(mop[1])))
+                    obs.append([k, int(r.allowed), r.threat_level.value, len(after), stats["total_filtered"],
+                                stats["total_blocked"], stats["learned_patterns"], stats["blocked_hashes"]])
+                    obs.append(ids)
+                else:
+                    if kind == "learn":
+                        d = mop[1]
+                        m.learn_threat(d["pattern"], M.ThreatLevel(d["level"]), f"id{d['id']}", d["regex"])
+                    elif kind == "forget":
+                        m.forget_threat(mop[1])
+                    elif kind == "addsig":
+                        m.add_signature(self._mk_tsig(M, mop[1]))
+                    elif kind == "thr":
+                        m.set_threshold(M.ThreatLevel(mop[1]))
+                    elif kind == "clear":
+                        m.clear_audit_log()
+                    else:
+                        raise ValueError(kind)
+                    after = m.get_audit_log()
+                    st["audit_ok"] = (after == [] if kind == "clear"
+                                      else len(after) == len(before) and all(a is b for a, b in zip(before, after)))
+                    obs.append([-1, k, len(after), len(m._learned_patterns), m.threshold.value])
+                st["others_audit_ok"] = same(snap)
+                steps.append(st)
+        finally:
+            M.time = saved
+        return obs, {"steps": steps}
+
     def _mk_validator(self, I, v):
         if v[0] == "len":
             return I.LengthValidator(min_length=v[1], max_length=v[2])
@@ -772,9 +1091,29 @@ class C10(Check):
                                   severity_threshold=case["threshold"], inflammation_decay_minutes=case["decay"], silent=True)
             if case["builtin"] != list(range(len(B))):
                 im.patterns = [B[i] for i in case["builtin"]] + customs
+            # a second instance built from the SAME pattern and validator objects (own lists): what happens to it
+            # must not reach `im`
+            sib = I.InnateImmunity(patterns=customs, validators=list(im.validators), severity_threshold=case["threshold"],
+                                   inflammation_decay_minutes=case["decay"], silent=True)
             for op in case["ops"]:
                 kind = op[0]
                 st = {"op": kind}
+                if kind == "sib":
+                    sop = op[1]
+                    try:
+                        if sop[0] == "check":
+                            sib.check(sop[1])
+                        elif sop[0] == "addpat":
+                            sib.add_pattern(mk(sop[1]))
+                        elif sop[0] == "addval":
+                            sib.add_validator(self._mk_validator(I, sop[1]))
+                        elif sop[0] == "reset":
+                            sib.reset_inflammation()
+                    except Exception:       # noqa - the sibling is not under test
+                        pass
+                    obs.append([-4])
+                    steps.append(st)
+                    continue
                 if kind == "check":
                     x = op[1]
                     verdicts = []
@@ -840,6 +1179,24 @@ class C10(Check):
             return f"(CShipped {cbool(case['innate'])} {cnat(case['idx'])} {clist([cstr(x) for x in case['contents']])})"
         if k == "sig":
             return f"(CSig {self._sig_coq(case['sig'])} {clist([cstr(x) for x in case['contents']])})"
+        if k == "sys":
+            def mop_coq(op):
+                o = op[0]
+                return {"filter": lambda: f"OFilter {cstr(op[1])}", "learn": lambda: f"OLearn {self._sig_coq(op[1])}",
+                        "forget": lambda: f"OForget {cstr(op[1])}", "addsig": lambda: f"OAddSig {self._sig_coq(op[1])}",
+                        "thr": lambda: f"OSetThreshold {cz(op[1])}", "clear": lambda: "OClearAudit"}[o]()
+            ops = []
+            for op in case["ops"]:
+                if op[0] == "tick":
+                    ops.append(f"STickAll {cz(op[1])}")
+                elif op[0] == "transfer":
+                    ops.append(f"STransfer {cnat(op[1])} {cnat(op[2])}")
+                else:
+                    ops.append(f"SOp {cnat(op[1])} ({mop_coq(op[2])})")
+            members = ["(%s, %s, %s, %s, %s)" % (clist([cnat(i) for i in m["builtin"]]),
+                                                 clist([self._sig_coq(d) for d in m["custom"]]), cz(m["threshold"]),
+                                                 copt(m["rate"]), cbool(m["adaptive"])) for m in case["members"]]
+            return f"(CSys (mkSCase {clist(members)} {cz(case['t0'])} {clist(ops)}))"
         if k == "mem":
             ops = []
             for op in case["ops"]:
@@ -877,6 +1234,8 @@ class C10(Check):
                 for v in (st or {}).get("verdicts", []):
                     ans.append("VRaises" if "raises" in v else f"VRet {cbool(v['valid'])} {cbool(v['err'])}")
                 ops.append(f"RI (ICheck {cstr(op[1])}) {clist(ans)}")
+            elif o == "sib":
+                ops.append("RSibling")
             elif o == "addval":
                 ops.append(f"RAddValidator ({vd(op[1])})")
             elif o == "addpat":
@@ -919,6 +1278,8 @@ class C10(Check):
                                      f"signature {pat!r} (regex={rx}) {'matches' if r else 'does not match'} {x!r} but a "
                                      f"case-insensitive {'search' if rx else 'substring test'} says otherwise")
             return None
+        if k == "sys":
+            return self._monitor_sys(case, trace)
         return self._monitor_mem(case, trace) if k == "mem" else self._monitor_inn(case, trace)
 
     def _monitor_mem(self, case, trace):
@@ -932,78 +1293,54 @@ class C10(Check):
         return self._monitor_mem_ordered(case, trace)
 
     def _monitor_mem_ordered(self, case, trace):
-        """the same checks with rule bookkeeping interleaved (ops change the active set between filters)"""
+        """rule bookkeeping interleaved with the filter results (ops change the active set between filters)"""
+        book = MemBook(self._shipped()[0], case["builtin"], case["custom"], case["threshold"], case["adaptive"], case["rate"])
+        monotone = True
+        for op, st in zip(case["ops"], trace["steps"]):
+            if op[0] == "tick" and op[1] < 0:
+                monotone = False
+            if op[0] != "filter":
+                book.apply(op)
+                continue
+            v = book.judge(st)
+            if v is not None:
+                return v
+        return book.rate_verdict() if monotone else None
+
+    def _monitor_sys(self, case, trace):
+        """a colony: one book per membrane, each updated only by the operations addressed to it; a transfer
+        copies the donor book's current VALUES into the recipient's book"""
+        for st in trace["steps"]:
+            if "raised" in st:
+                return Violation("C10/raises", f"Membrane.filter raised {st['raised']}")
+            if not st.get("audit_ok", True):
+                return Violation("C10/audit", f"audit trail of membrane {st.get('k')} not appended-to exactly once by {st['op']}")
+            if not st.get("others_audit_ok", True):
+                return Violation("C10/isolation", f"{st['op']} on membrane {st.get('k')} changed another membrane's audit trail "
+                                                  f"or statistics")
         shipped = self._shipped()[0]
-        sigs = [(i, shipped[i]["pattern"], shipped[i]["is_regex"], shipped[i]["level"]) for i in case["builtin"]]
-        sigs += [(d["id"], d["pattern"], d["regex"], d["level"]) for d in case["custom"]]
-        learned = {}
-        thr = case["threshold"]
-        epoch = 0
-        blocked_by_scan = []
-        admitted = []
+        books = [MemBook(shipped, m["builtin"], m["custom"], m["threshold"], m["adaptive"], m["rate"], tag=f"membrane {k}: ")
+                 for k, m in enumerate(case["members"])]
         monotone = True
         for op, st in zip(case["ops"], trace["steps"]):
             o = op[0]
-            if o == "learn":
-                if case["adaptive"]:
-                    d = op[1]
-                    learned[d["pattern"]] = (d["id"], d["pattern"], d["regex"], d["level"])
-                    epoch += 1
-            elif o == "forget":
-                if learned.pop(op[1], None) is not None:
-                    epoch += 1
-            elif o == "import":
-                for d in op[1]:
-                    learned[d["pattern"]] = (d["id"], d["pattern"], d["regex"], d["level"])
-                epoch += 1
-            elif o == "addsig":
-                d = op[1]
-                sigs.append((d["id"], d["pattern"], d["regex"], d["level"]))
-                epoch += 1
-            elif o == "thr":
-                if op[1] != thr:
-                    thr = op[1]
-                    epoch += 1
-            elif o == "tick":
-                if op[1] < 0:
-                    monotone = False
-            if o != "filter":
-                continue
-            x = st["content"]
-            active = sigs + list(learned.values())
-            hits = [(i, lvl) for (i, p, rx, lvl) in active if spec_matches(p, rx, x)]
-            replay = any(b == x for b, _ in blocked_by_scan)
-            if st["allowed"]:
-                bad = [i for (i, lvl) in hits if lvl >= thr]
-                if bad:
-                    return Violation("C10/allowed-despite-signature",
-                                     f"filter allowed {x!r} although active signature(s) {bad} at/above threshold {thr} match")
-                if replay:
-                    return Violation("C10/replay-forgotten", f"{x!r} was blocked by a scan earlier and is allowed now")
-                for b, e in blocked_by_scan:
-                    if e == epoch and b.lower() == x.lower():
-                        return Violation("C10/case-change-unblocks", f"{b!r} was blocked but its case variant {x!r} is allowed")
-                    if e == epoch and embeds(b, x):
-                        return Violation("C10/embedding-unblocks", f"{b!r} was blocked but {x!r}, which embeds it in text that "
-                                                                   f"glues no word character to it, is allowed")
-            scanned = (st["limited"] is not True) and not replay
-            if scanned:
-                if st["ids"] != sorted(i for i, _ in hits):
-                    return Violation("C10/matched-set", f"matched signatures {st['ids']} != matching active signatures "
-                                                        f"{sorted(i for i, _ in hits)} for {x!r}")
-                if st["level"] != max([0] + [l for _, l in hits]):
-                    return Violation("C10/level-not-max", f"threat level {st['level']} is not the maximum over matched "
-                                                          f"signatures {hits} for {x!r}")
-                if not st["allowed"]:
-                    blocked_by_scan.append((x, epoch))
-            if st["limited"] is not True:
-                admitted.append(st["t"] / TPS)
-        if case["rate"] is not None and monotone:
-            lim = max(0, case["rate"])
-            for a in admitted:
-                n = sum(1 for t in admitted if a <= t < a + WINDOW_S)
-                if n > lim:
-                    return Violation("C10/rate-bound", f"{n} requests admitted within [{a}, {a + WINDOW_S}) s with rate_limit={case['rate']}")
+            if o == "tick":
+                monotone = monotone and op[1] >= 0
+            elif o == "transfer":
+                books[op[2]].import_values(books[op[1]].exported())
+            elif o == "m":
+                k, mop = op[1], op[2]
+                if mop[0] == "filter":
+                    v = books[k].judge(st)
+                    if v is not None:
+                        return v
+                else:
+                    books[k].apply(mop)
+        if monotone:
+            for b in books:
+                v = b.rate_verdict()
+                if v is not None:
+                    return v
         return None
 
     def _monitor_inn(self, case, trace):
@@ -1073,6 +1410,18 @@ class C10(Check):
         if k in ("shipped", "sig"):
             ks += ["sig-match" if r else "sig-nomatch" for r in trace.get("res", [])]
             return ks
+        if k == "sys":
+            if case.get("scenario"):
+                fs = [st for st in trace.get("steps", []) if st["op"] == "filter" and "allowed" in st]
+                ks.append(case["scenario"] + (":victim-blocks" if fs and not fs[-3]["allowed"] else ":victim-admits")
+                          if len(fs) >= 3 else case["scenario"])
+            for st in trace.get("steps", []):
+                ks.append("sys-op=" + st["op"])
+                if st["op"] == "filter" and "allowed" in st:
+                    ks.append("sys-filter:" + ("rate-limited" if st["limited"] else
+                                               "replay-blocked" if st["level"] == 3 and not st["ids"] and not st["allowed"]
+                                               else "scanned-" + ("allowed" if st["allowed"] else "blocked")))
+            return ks
         if case.get("scenario"):
             key = "filter" if k == "mem" else "check"
             fs = [st for st in trace.get("steps", []) if st["op"] == key and st.get("content") == case["ops"][0][1]
@@ -1103,8 +1452,9 @@ class C10(Check):
     def _evaluate(self, cases):
         # hash injectivity on every membrane case (the model's hash is the identity)
         for c in cases:
-            if c.get("kind") == "mem":
-                xs = {op[1] for op in c["ops"] if op[0] == "filter"}
+            if c.get("kind") in ("mem", "sys"):
+                xs = ({op[1] for op in c["ops"] if op[0] == "filter"} if c["kind"] == "mem" else
+                      {op[2][1] for op in c["ops"] if op[0] == "m" and op[2][0] == "filter"})
                 if len({sha16(x) for x in xs}) != len(xs):
                     self.notes.append("sha256[:16] collision inside a case (model hash = identity would disagree)")
         return super()._evaluate(cases)
@@ -1214,7 +1564,7 @@ class C10(Check):
     def shrink(self, case, pred):
         if case.get("kind") == "hostile":
             return case
-        if case.get("kind") not in ("mem", "inn"):
+        if case.get("kind") not in ("mem", "inn", "sys"):
             if "contents" in case:
                 cs = common.shrink_list(case["contents"], lambda xs: len(xs) > 0 and pred({**case, "contents": xs}))
                 return {**case, "contents": cs}
